@@ -40,9 +40,9 @@ impl VMap {
     /// HashMap::new / Default: empty
     #[verifier::external_body]
     pub fn new() -> (r: VMap) ensures r@ == Map::<Seq<char>, u32>::empty() { unimplemented!() }
-    // plausible foreign calls: accepted, nothing promised
+    /// lookup by contents (ASSUMED, like `get`)
     #[verifier::external_body]
-    pub fn contains_key(&self, key: &str) -> bool { unimplemented!() }
+    pub fn contains_key(&self, key: &str) -> (r: bool) ensures r == self@.dom().contains(key@) { unimplemented!() }
     #[verifier::external_body]
     pub fn insert(&mut self, key: String, v: u32) -> Option<u32> { unimplemented!() }
     #[verifier::external_body]
@@ -231,6 +231,14 @@ impl IdMap {
     }
     pub open spec fn knows(&self, k: Seq<char>) -> bool { self.map@.dom().contains(k) }
 
+//@extract method bigtools/src/utils/idmap.rs has_id "^impl IdMap$"
+//@ret r
+//@sig
+    ensures
+        [[L: says_whether_the_name_already_has_an_id]]
+        r == self.knows(key@),
+//@end
+
 //@extract method bigtools/src/utils/idmap.rs get_id "^impl IdMap$"
 //@rule R5
 //@sub /\*self\.map\.entry\((.*?)\)\.or_insert\(([^()]*)\)/ => *self.map.entry_or_insert(\1, \2) min=0
@@ -377,10 +385,17 @@ pub open spec fn id_given(before: IdMap, after: IdMap, name: Seq<char>, id: u32)
         [[L: vals/pre_fewer_than_2_pow_32_chromosomes]]
         old(chrom_ids).next_id < u32::MAX,
     ensures
-        [[L: vals/refused_exactly_when_the_chromosome_has_no_supplied_size]]
-        r is Err <==> !chrom_sizes@.dom().contains(chrom@),
-        [[L: vals/refusal_is_invalid_chromosome]]
-        r matches Err(e) ==> e is InvalidChromosome,
+        [[L: vals/refused_exactly_when_the_chromosome_has_no_supplied_size_or_starts_a_second_run]]
+        r is Err <==> (!chrom_sizes@.dom().contains(chrom@) || old(chrom_ids).knows(chrom@)),
+        [[L: vals/a_chromosome_that_starts_a_second_run_is_refused]]
+        old(chrom_ids).knows(chrom@) ==> r is Err,
+        [[L: vals/refusal_of_a_chromosome_without_supplied_size_is_invalid_chromosome]]
+        r matches Err(e) ==> (!chrom_sizes@.dom().contains(chrom@) ==> e is InvalidChromosome),
+        [[L: vals/refusal_of_a_second_run_is_invalid_input]]
+        r matches Err(e) ==> (chrom_sizes@.dom().contains(chrom@) ==> e is InvalidInput),
+        [[L: vals/accepted_chromosome_is_new_and_gets_the_next_fresh_id]]
+        r matches Ok(p) ==> !old(chrom_ids).knows(chrom@) && p.made_from().2 == old(chrom_ids).next_id
+            && p.made_from().2 as int == old(chrom_ids).order@.len() && final(chrom_ids).order@ == old(chrom_ids).order@.push(chrom@),
         [[L: vals/refused_chromosome_consumes_no_id]]
         r is Err ==> final(chrom_ids).map@ == old(chrom_ids).map@ && final(chrom_ids).order@ == old(chrom_ids).order@
             && final(chrom_ids).next_id == old(chrom_ids).next_id,
@@ -415,10 +430,17 @@ pub open spec fn id_given(before: IdMap, after: IdMap, name: Seq<char>, id: u32)
         [[L: no_zoom/pre_fewer_than_2_pow_32_chromosomes]]
         old(chrom_ids).next_id < u32::MAX,
     ensures
-        [[L: no_zoom/refused_exactly_when_the_chromosome_has_no_supplied_size]]
-        r is Err <==> !chrom_sizes@.dom().contains(chrom@),
-        [[L: no_zoom/refusal_is_invalid_chromosome]]
-        r matches Err(e) ==> e is InvalidChromosome,
+        [[L: no_zoom/refused_exactly_when_the_chromosome_has_no_supplied_size_or_starts_a_second_run]]
+        r is Err <==> (!chrom_sizes@.dom().contains(chrom@) || old(chrom_ids).knows(chrom@)),
+        [[L: no_zoom/a_chromosome_that_starts_a_second_run_is_refused]]
+        old(chrom_ids).knows(chrom@) ==> r is Err,
+        [[L: no_zoom/refusal_of_a_chromosome_without_supplied_size_is_invalid_chromosome]]
+        r matches Err(e) ==> (!chrom_sizes@.dom().contains(chrom@) ==> e is InvalidChromosome),
+        [[L: no_zoom/refusal_of_a_second_run_is_invalid_input]]
+        r matches Err(e) ==> (chrom_sizes@.dom().contains(chrom@) ==> e is InvalidInput),
+        [[L: no_zoom/accepted_chromosome_is_new_and_gets_the_next_fresh_id]]
+        r matches Ok(p) ==> !old(chrom_ids).knows(chrom@) && p.made_from().1 == old(chrom_ids).next_id
+            && p.made_from().1 as int == old(chrom_ids).order@.len() && final(chrom_ids).order@ == old(chrom_ids).order@.push(chrom@),
         [[L: no_zoom/refused_chromosome_consumes_no_id]]
         r is Err ==> final(chrom_ids).map@ == old(chrom_ids).map@ && final(chrom_ids).order@ == old(chrom_ids).order@
             && final(chrom_ids).next_id == old(chrom_ids).next_id,
@@ -444,60 +466,26 @@ pub open spec fn id_given(before: IdMap, after: IdMap, name: Seq<char>, id: u32)
 // the empty id map (`IdMap::default()`: derive(Default) = empty map, next_id 0 -- ASSUMED, modelled by the literal
 // below).  Nothing is re-implemented; Verus checks the loop against do_read's contract for all name sequences.
 // -------------------------------------------------------------------------------------
-/// the distinct members of s in order of first appearance
-pub open spec fn first_app(s: Seq<Seq<char>>) -> Seq<Seq<char>>
-    decreases s.len()
-{
-    if s.len() == 0 { Seq::empty() } else {
-        let p = first_app(s.drop_last());
-        if p.contains(s.last()) { p } else { p.push(s.last()) }
-    }
-}
 pub open spec fn names_of(v: Seq<String>) -> Seq<Seq<char>> { Seq::new(v.len(), |k: int| v[k]@) }
-/// first_app(s) has exactly the members of s, each once
-pub proof fn lemma_first_app(s: Seq<Seq<char>>)
-    ensures
-        forall|x: Seq<char>| #![trigger first_app(s).contains(x)] first_app(s).contains(x) <==> s.contains(x),
-        forall|a: int, b: int| 0 <= a < b < first_app(s).len() ==> first_app(s)[a] != first_app(s)[b],
-    decreases s.len()
-{
-    if s.len() > 0 {
-        let d = s.drop_last();
-        let p = first_app(d);
-        lemma_first_app(d);
-        assert forall|x: Seq<char>| #![trigger first_app(s).contains(x)] first_app(s).contains(x) <==> s.contains(x) by {
-            if s.contains(x) {
-                let j = choose|j: int| 0 <= j < s.len() && s[j] == x;
-                if j < s.len() - 1 { assert(d[j] == x); assert(d.contains(x)); assert(p.contains(x)); }
-                if !p.contains(s.last()) { assert(p.push(s.last())[p.len() as int] == s.last()); }
-                if p.contains(x) { let a = choose|a: int| 0 <= a < p.len() && p[a] == x; assert(p.push(s.last())[a] == x); }
-            }
-            if first_app(s).contains(x) {
-                let a = choose|a: int| 0 <= a < first_app(s).len() && first_app(s)[a] == x;
-                if a < p.len() { assert(p[a] == x); assert(p.contains(x)); assert(d.contains(x)); let j = choose|j: int| 0 <= j < d.len() && d[j] == x; assert(s[j] == x); }
-                else { assert(x == s.last()); assert(s[s.len() - 1] == x); }
-            }
-        }
-        assert forall|a: int, b: int| 0 <= a < b < first_app(s).len() implies first_app(s)[a] != first_app(s)[b] by {
-            if b == p.len() { assert(p[a] == first_app(s)[a]); assert(p.contains(p[a])); }
-        }
-    }
-}
+pub open spec fn appears_before(names: Seq<String>, k: int) -> bool { exists|j: int| 0 <= j < k && names[j]@ == names[k]@ }
 fn driver_chromosome_table(names: &Vec<String>, chrom_sizes: &VMap, send: &mut ChromTx<Data>, options: &BBIWriteOptions, runtime: &Runtime, zoom_sizes: &Vec<u32>)
     -> (r: (IdMap, usize, Ghost<Seq<u32>>))
     requires
         names@.len() < u32::MAX,
     ensures
-        [[L: table/stops_at_the_first_chromosome_without_a_supplied_size]]
+        [[L: table/stops_at_the_first_chromosome_without_a_supplied_size_or_that_starts_a_second_run]]
         r.1 <= names@.len(),
         forall|k: int| 0 <= k < r.1 ==> chrom_sizes@.dom().contains(#[trigger] names@[k]@),
-        r.1 < names@.len() ==> !chrom_sizes@.dom().contains(names@[r.1 as int]@),
+        r.1 < names@.len() ==> (!chrom_sizes@.dom().contains(names@[r.1 as int]@) || appears_before(names@, r.1 as int)),
         [[L: table/lists_exactly_the_accepted_chromosomes_in_first_appearance_order]]
         r.0.wf(),
-        r.0.order@ == first_app(names_of(names@.subrange(0, r.1 as int))),
+        r.0.order@ == names_of(names@.subrange(0, r.1 as int)),
+        [[L: table/one_run_per_chromosome_id]]
+        r.0.order@.len() == r.1 && r.0.next_id == r.1,
+        forall|a: int, b: int| 0 <= a < b < r.1 ==> names@[a]@ != names@[b]@,
         [[L: table/every_processor_got_the_id_of_its_name_and_the_supplied_size]]
         r.2@.len() == r.1,
-        forall|k: int| 0 <= k < r.1 ==> 0 <= (#[trigger] r.2@[k]) < r.0.order@.len() && r.0.order@[r.2@[k] as int] == names@[k]@,
+        forall|k: int| 0 <= k < r.1 ==> (#[trigger] r.2@[k]) as int == k && r.0.order@[k] == names@[k]@,
         [[L: table/one_message_per_accepted_chromosome_run]]
         final(send).sent().len() == old(send).sent().len() + r.1,
 {
@@ -509,11 +497,11 @@ fn driver_chromosome_table(names: &Vec<String>, chrom_sizes: &VMap, send: &mut C
     while k < names.len()
         invariant
             k <= names@.len(), names@.len() < u32::MAX,
-            ids.wf(), ids.next_id <= k,
+            ids.wf(), ids.next_id == k,
             forall|j: int| 0 <= j < k ==> chrom_sizes@.dom().contains(#[trigger] names@[j]@),
-            ids.order@ == first_app(names_of(names@.subrange(0, k as int))),
+            ids.order@ == names_of(names@.subrange(0, k as int)),
             given.len() == k,
-            forall|j: int| 0 <= j < k ==> 0 <= (#[trigger] given[j]) < ids.order@.len() && ids.order@[given[j] as int] == names@[j]@,
+            forall|j: int| 0 <= j < k ==> (#[trigger] given[j]) as int == j,
             send.sent().len() == sent0.len() + k, sent0 == old(send).sent(),
         decreases
             [[L: table/termination]]
@@ -522,29 +510,47 @@ fn driver_chromosome_table(names: &Vec<String>, chrom_sizes: &VMap, send: &mut C
         let ghost before = ids;
         let name = names[k].as_str().to_string();
         let res = do_read_write_vals(name, chrom_sizes, &mut ids, send, options, runtime, zoom_sizes);
-        proof {
-            let pre = names_of(names@.subrange(0, k as int));
-            let nxt = names_of(names@.subrange(0, k as int + 1));
-            assert(nxt.drop_last() =~= pre);
-            assert(nxt.last() == names@[k as int]@);
-        }
         match res {
-            Err(_) => { return (ids, k, Ghost(given)); }
+            Err(_) => {
+                proof {
+                    if before.knows(names@[k as int]@) {
+                        assert(before.order@.contains(names@[k as int]@));
+                        let j = choose|j: int| 0 <= j < before.order@.len() && before.order@[j] == names@[k as int]@;
+                        assert(names@[j]@ == names@[k as int]@);
+                    }
+                    lemma_order_distinct(ids);
+                    assert forall|a: int, b: int| 0 <= a < b < k implies names@[a]@ != names@[b]@ by {
+                        assert(ids.order@[a] == names@.subrange(0, k as int)[a]@ && ids.order@[b] == names@.subrange(0, k as int)[b]@);
+                    }
+                }
+                return (ids, k, Ghost(given));
+            }
             Ok(p) => {
                 proof {
-                    let id = p.made_from().2;
-                    assert(before.knows(names@[k as int]@) <==> before.order@.contains(names@[k as int]@));
-                    assert forall|j: int| 0 <= j < k implies 0 <= (#[trigger] given[j]) < ids.order@.len() && ids.order@[given[j] as int] == names@[j]@ by {
-                        assert(before.order@[given[j] as int] == ids.order@[given[j] as int]);
-                    }
-                    given = given.push(id);
+                    assert(ids.order@ =~= names_of(names@.subrange(0, k as int + 1)));
+                    given = given.push(p.made_from().2);
                 }
             }
         }
         k = k + 1;
     }
-    proof { assert(names@.subrange(0, k as int) =~= names@); }
+    proof {
+        lemma_order_distinct(ids);
+        assert forall|a: int, b: int| 0 <= a < b < k implies names@[a]@ != names@[b]@ by {
+            assert(ids.order@[a] == names@.subrange(0, k as int)[a]@ && ids.order@[b] == names@.subrange(0, k as int)[b]@);
+        }
+    }
     (ids, k, Ghost(given))
+}
+/// a well-formed id map lists every name once
+pub proof fn lemma_order_distinct(m: IdMap)
+    requires m.wf(),
+    ensures forall|a: int, b: int| 0 <= a < b < m.order@.len() ==> m.order@[a] != m.order@[b],
+{
+    assert forall|a: int, b: int| 0 <= a < b < m.order@.len() implies m.order@[a] != m.order@[b] by {
+        assert(m.map@[m.order@[a]] as int == a);
+        assert(m.map@[m.order@[b]] as int == b);
+    }
 }
 
 // Second pass (write_zoom_vals): the id is LOOKED UP in the map the first pass produced, never created.
